@@ -146,6 +146,39 @@ CLAIMED["C12"] = (
     "both literal sides, negative and fractional scalars, vector(c), offsets, instant and range evaluation.",
     MET_NOTE, "DESIGN.md 4 C12")
 
+DOCK_NOTE = ("Trusted: Coq kernel + vm_compute; the hand-written Docker-storage model (Model/Docker.v: labels, selection, options, fault-aware merge with read-ahead, ledger), tied to the code by the "
+             "correspondence run; the fake Docker API client of the harness (scripted read events, open failures, completion order; it does not itself apply since/until); time.Parse instance "
+             "Base/TimeFmt.v; container/heap transliteration; goroutine scheduling modelled as completion order of the per-container opens; regexp on the fragment of Base/Regex.v.")
+CLAIMED["C02"] = (
+    "Coq proof (selection as a filter with a per-operator characterisation; truncation arithmetic; origin of a record) + differential correspondence over a fake Docker daemon with generator-computed expectations",
+    "Theorems select_exact, matcher_sem (= / != exact, =~ / !~ fully anchored, on the label's value), absent_label_is_empty, prefix_match_refuted (D1 D2), window_truncated (since = floor(start/1s), until = floor(end/1s)), record_origin. "
+    "The check builds inventories (overlapping names/images/states, Docker labels needing sanitisation, colliding after sanitisation, shadowing built-ins), selectors with all four operators over present and absent labels, "
+    "fractional-second windows, instant look-back and range-aggregation windows, and demands on the observed run: exactly the generator-selected containers are asked for logs, each with exactly the expected since/until; "
+    "every returned line (tagged with its container id) sits in a stream carrying that container's labels; the result equals the model.",
+    DOCK_NOTE + " What the daemon does with since/until is outside this repository.", "DESIGN.md 4 C02")
+CLAIMED["C14"] = (
+    "Coq proof (ledger invariant of build / closeOnError / deferred Close by induction over the query shape; stream-level fault theorems are C03's) + differential correspondence with single-fault plans under several completion orders",
+    "Theorems all_closed (for every query shape, listing failure and open-failure pattern: readers closed = readers opened), prefix_ledger_refuted (D13), list_failure_is_error, open_failure_is_error; with C03's cut_in_body / "
+    "daemon_error_frame / bad_timestamp / reader_failure theorems for what a faulty stream decodes to. The check runs six query shapes over 1-5 containers with one fault each (listing, open in the left or right operand, stream cut in a "
+    "body, daemon error frame, bad timestamp, frame without space, reader failure at the first / middle / last frame, cut in a header = clean end by C03) under 2-3 completion orders and demands: closed = opened per container; an error "
+    "whenever the fault precedes every record the query needs; a non-error answer equals the answer over the intended fault-free streams (no silent truncation); only selected containers are opened; log queries equal the exact "
+    "read-by-read model (sticky stream errors, merge read-ahead, limit check after the storage call). PARTIAL: that an unlimited log query always meets a stream fault is established by correspondence, not yet as a theorem about log_loop.",
+    DOCK_NOTE, "DESIGN.md 4 C14")
+CLAIMED["C18"] = (
+    "Coq proof (schedule independence of the index-addressed open; permutation invariance of the sorted Docker-label fold; commutation of slot writes; a float non-associativity witness) + exhaustive completion orders and repetition on order-sensitive queries",
+    "Theorems open_schedule_indep, open_writes_disjoint, labels_order_indep / container_labels_deterministic (+ prefix_labels_order_dependent, D28), float_sum_order_matters (why D16 was a defect), vagg_step_deterministic. The check evaluates "
+    "queries whose answer is sensitive to any ordering freedom (limits cutting inside cross-container ties, topk over ties, float sums of 0.1/0.2/0.3-like values, binary operations under an outer aggregation) under every completion "
+    "order of the concurrent ContainerLogs calls (thorough: all n! up to 5 containers) and three repetitions per order, and demands the same streams / series in the same order with the same bits; C15's theorem makes rendering a "
+    "function of that list. PARTIAL: Go-memory-model race freedom is a runtime property: the thorough tier re-runs the scenarios on a -race build as supporting evidence, no theorem covers it.",
+    DOCK_NOTE, "DESIGN.md 4 C18")
+CLAIMED["C17"] = (
+    "Coq proof (progress of the IP scan, fuel adequacy, guardedness of heap.Min, termination and completeness of the stepper) + outcome-class exploration under recover() and a watchdog over four input streams",
+    "Theorems ip_capture_progress, ip_scan_fuel_adequate, heap_min_guarded, grid_complete, zero_step_needs_guard; every model function is total by construction, these are the places where totality has content. The check evaluates "
+    "(1) grammar-derived log and metric queries over adversarial contents (expect a result), (2) user mistakes (expect an error), (3) single-token mutations, (4) arbitrary bytes and deep nesting as queries, each as instant and as "
+    "positive-step range query; a panic, a hang (6 s watchdog) or a dead process is a violation. PARTIAL: panics / non-termination inside third-party libraries and Go stack exhaustion on multi-megabyte nesting are only observed.",
+    "Trusted: Coq kernel; recover()/watchdog-based outcome classification in the harness; the models whose totality is proved are tied to the code by the correspondence runs of C01 and C05-C12.",
+    "DESIGN.md 4 C17")
+
 REASON_PENDING = "check not built yet in this round; planned (see DESIGN.md section 4/8) - no claim is made until the proof and correspondence exist"
 
 def main():
